@@ -30,7 +30,8 @@ ACTIONS = ['connect-hold', 'connect-hold', 'connect-refused',
            'thread', 'reconnect-listener', 'reconnect-exc-handler',
            'reconnect-exit-callback', 'cancel-reconnect-listener',
            'stall-then-disconnect', 'negotiation-silent-then-disconnect',
-           'reconnect-listener-lingers']
+           'reconnect-listener-lingers', 'status-ping-connect-in-callback',
+           'reconnect-early-listener']
 
 
 class Harness(object):
@@ -47,6 +48,7 @@ class Harness(object):
 
     def handler(self, io):
         io.cmds, io.results = queue.Queue(), queue.Queue()
+        io.stray_ka = []
         io.phase = 'accepted'
         self.ios.append(io)
         codec, pv = self.codec, self.pv
@@ -72,6 +74,14 @@ class Harness(object):
             io.send_frame(0x00, ref.encode_field('string',
                           '{"version":{"name":"x","protocol":%d}}' % pv))
             io.phase = 'status-served'
+            # a client that measures the latency pings now
+            try:
+                fr = io.recv_frame(6.0)
+                if fr is not None and fr[0] == 0x01:
+                    io.send_frame(0x01, fr[1])
+                    io.phase = 'status-ponged'
+            except mcserver.ScriptTimeout:
+                pass
             self._await_eof(io)
             return
         mode = self.next_mode
@@ -139,9 +149,14 @@ class Harness(object):
                         if nm == 'sb_keep_alive' and vals['id'] == cmd[1]:
                             ok = True
                             break
+                        if nm == 'sb_keep_alive':
+                            io.stray_ka.append(vals['id'])
                 except mcserver.ScriptTimeout:
                     pass
                 io.results.put(ok)
+            elif cmd[0] == 'ka-noecho':
+                kid, kp = codec.encode('cb_keep_alive', {'id': cmd[1]})
+                io.send_frame(kid, kp)
             elif cmd[0] in ('trigger', 'cancel', 'linger'):
                 cid, cp = codec.encode('cb_chat', {
                     'json': '{"text":"%s"}' % (
@@ -338,6 +353,17 @@ def history_case(run, rng, pv, actions, idx, encrypted=False):
                 conn.connect()
         conn.register_packet_listener(on_chat,
                                       clientbound.play.ChatMessagePacket)
+        early_ids = []
+
+        def on_ka_early(packet):
+            # an *early* listener that reconnects and returns normally (no
+            # IgnorePacket): the later stages still run for this packet
+            if packet.keep_alive_id in early_ids:
+                conn.disconnect()
+                conn.connect()
+        conn.register_packet_listener(on_ka_early,
+                                      clientbound.play.KeepAlivePacket,
+                                      early=True)
         state = 'idle'
         live = None
         linger_s = 3.0 if idx % 2 == 0 else 4.0
@@ -550,6 +576,62 @@ def history_case(run, rng, pv, actions, idx, encrypted=False):
                 H.next_mode = 'hold'
                 state = 'idle'
                 run.count('disconnects_of_stalled')
+            elif action == 'status-ping-connect-in-callback':
+                if state != 'idle':
+                    continue
+                H.next_mode = 'hold'
+                cb_err = []
+
+                def on_ping(_ms):
+                    # the status query is over when its result is delivered:
+                    # the same object may connect from inside this callback
+                    try:
+                        conn.connect()
+                    except Exception as e:
+                        cb_err.append(e)
+                try:
+                    conn.status(handle_status=False, handle_ping=on_ping)
+                except Exception as e:
+                    bad('idle/connect-raised', 'status() on an idle connection'
+                        ' raised', raised=repr(e))
+                    return None
+                ok = pc.wait_for(lambda: cb_err or (
+                    len(H.ios) >= n_ios + 2 and getattr(
+                        H.ios[-1], 'phase', '') == 'play'), 12.0)
+                if cb_err or not ok or not H.alive(H.ios[-1]):
+                    bad('reconnect/ping-callback', 'connect() from inside the '
+                        'latency callback of a status query did not produce a '
+                        'working session', raised=repr(cb_err[:1]),
+                        connections=len(H.ios) - n_ios,
+                        exc=repr(rec.exceptions[n_exc:]))
+                    if cb_err and not pc.wait_idle(conn, 5.0):
+                        pc.safe_disconnect(conn)
+                    return None
+                live = H.ios[-1]
+                state = 'active'
+                run.count('connects_from_ping_callback')
+            elif action == 'reconnect-early-listener':
+                if state != 'active':
+                    continue
+                H.next_mode = 'hold'
+                self_ka = 770000 + step
+                early_ids.append(self_ka)
+                live.cmds.put(('ka-noecho', self_ka))
+                new = reach_play(n_ios)
+                if new is None or not H.alive(new):
+                    bad('reconnect/listener', 'disconnect()+connect() from an '
+                        'early listener did not produce a working session',
+                        exc=repr(rec.exceptions[n_exc:]))
+                    return None
+                stray = [i for i in getattr(new, 'stray_ka', ())
+                         if i in early_ids]
+                if stray:
+                    bad('reconnect/old-session-reply-in-new-session', 'the '
+                        'reply to a packet of the previous session was sent '
+                        'on the new connection', stray=stray)
+                    return None
+                live = new
+                run.count('reconnects_from_early_listener')
             elif action == 'negotiation-silent-then-disconnect':
                 if state != 'idle':
                     continue
@@ -1102,7 +1184,7 @@ def stress_case(run, rng, pv, idx):
 def run(run):
     thorough = run.tier == 'thorough'
     run.level = 'exploration'
-    run.rule = ('call histories of length <= %d over 16 actions (connect '
+    run.rule = ('call histories of length <= %d over 20 actions (connect '
                 'against 5 server behaviours, status, 4 disconnect forms, 3 '
                 'reconnect-from-callback forms), all length-1 and length-2 '
                 'histories exhaustively plus seeded longer ones, each executed'
